@@ -226,3 +226,136 @@ CONTRACTS = [
              ['qbee.expr:UnaryOp.type', 'qbee.expr:UnaryOp.eval', 'qbee.qvm_codegen:gen_unary_op'], body_unary,
              cases=[(op, t) for op in ('NEG', 'PLUS', 'NOT') for t in NUM]),
 ]
+
+
+# ------------------------------------------------------------------ folding leaves non-constant expressions alone
+
+class _LvStub(expr.Expr):
+    """a variable reference (non-constant operand)"""
+    child_fields = []
+    is_const = False
+    is_literal = False
+
+    def __new__(cls, *a, **k):
+        return object.__new__(cls)
+
+    def __init__(self, t):
+        self._t = t
+        self.parent = None
+
+    @property
+    def type(self):
+        return self._t
+
+
+def body_fold_nonconst(h, shape, tname):
+    """Expr.fold contract: a constant sub-tree becomes a literal; every other node is returned unchanged (in particular an
+    expression argument such as +x or (x) never turns into the bare variable, which would be passed by reference)"""
+    lv = _LvStub(TYPES[tname][1])
+    if shape in ('PLUS', 'NEG', 'NOT'):
+        node = object.__new__(expr.UnaryOp)
+        node.arg, node.op, node.parent = lv, Operator[shape], None
+    elif shape == 'paren':
+        node = object.__new__(expr.ParenthesizedExpr)
+        node.child, node.parent = lv, None
+    else:
+        lit, _c = literal(h, tname, 'k')
+        node = object.__new__(expr.BinaryOp)
+        node.left, node.right = (lv, lit) if shape == 'var+lit' else (lit, lv)
+        node.op = Operator.ADD
+        node.parent = None
+    out = h.call(node.fold)
+    if not out.returned:
+        h.prove('fold.no_exception', False, detail=repr(out))
+        return
+    h.prove('non_constant_expression_is_left_unchanged', out.value is node, detail=repr(out.value))
+    h.prove('never_becomes_a_bare_variable', not isinstance(out.value, (expr.Lvalue, _LvStub)))
+
+
+CONTRACTS += [
+    Contract('expr.fold_nonconst', ['C02', 'C04'], ['qbee.expr:Expr.fold'], body_fold_nonconst,
+             cases=[(s, t) for s in ('PLUS', 'NEG', 'NOT', 'paren', 'var+lit', 'lit+var') for t in ('INTEGER', 'DOUBLE')]),
+]
+
+
+# ------------------------------------------------------------------ SELECT CASE clauses
+
+from qbee import stmt as qstmt
+from qbee.qvm_codegen import SelectBlockContext
+
+
+class _CaseGen(ChildGen):
+    def __init__(self, children, ctx):
+        super().__init__(None, children)
+        self.cur_blocks = [ctx]
+
+
+def body_case_clause(h, kind, vt, t1, t2, op='CMP_LT'):
+    """a CASE clause on a selector of type vt: the emitted code leaves the QB boolean of
+       simple:  selector = value      range:  from <= selector AND selector <= to      compare:  selector op value
+    with the clause operands converted to the selector's type"""
+    sel = mkcell(h, TYPES[vt][0], 'selector')
+    a_node, a = literal(h, t1, 'a')
+    b_node, b = literal(h, t2, 'b')
+    value_holder = object.__new__(qstmt.SelectBlock)
+    value_holder.__dict__['value'] = _LvStub(TYPES[vt][1])
+    case = object.__new__(qstmt.CaseStmt)
+    case.parent = value_holder
+    if kind == 'simple':
+        cl = object.__new__(qstmt.SimpleCaseClause)
+        cl.value = a_node
+        gen = qvm_codegen.gen_simple_case_clause
+        children, cells = [a_node], [a]
+    elif kind == 'range':
+        cl = object.__new__(qstmt.RangeCaseClause)
+        cl.from_value, cl.to_value = a_node, b_node
+        gen = qvm_codegen.gen_range_case_clause
+        children, cells = [a_node, b_node], [a, b]
+    else:
+        cl = object.__new__(qstmt.CompareCaseClause)
+        cl.value, cl.op = a_node, Operator[op]
+        gen = qvm_codegen.gen_compare_case_clause
+        children, cells = [a_node], [a]
+    cl.parent = case
+    ctx = SelectBlockContext('select', 'end', 'selvar', TYPES[vt][1])
+    code = qvm_codegen.QvmCode()
+    out = h.call(gen, cl, code, _CaseGen(children, ctx))
+    if not out.returned:
+        h.prove('generator.no_exception', False, detail=repr(out))
+        return
+    cpu = new_cpu(h, [])
+    bad = run_instrs(h, cpu, code._instrs, cells, locals_={'selvar': sel})
+    # specification: operands converted to the selector type, overflow of a conversion is the run-time error
+    ca = h.spec(qb_expr.convert, a.value, t1, vt)
+    cb = h.spec(qb_expr.convert, b.value, t2, vt) if kind == 'range' else ('ok', None)
+    if bad is not None:
+        ok = bad.raised(Trapped) and bad.exc.trap_code == TrapCode.INVALID_CELL_VALUE
+        h.prove('only_conversion_overflow_can_trap', ok, detail=repr(bad))
+        h.prove('trap_only_if_an_operand_does_not_fit_the_selector_type', ca[0] != 'ok' or cb[0] != 'ok')
+        return
+    h.prove('no_missed_overflow', ca[0] == 'ok' and cb[0] == 'ok')
+    if ca[0] != 'ok' or cb[0] != 'ok':
+        return
+    cells_out = stack_after(h, cpu, 1)
+    if not cells_out:
+        return
+    s = sel.value
+    if kind == 'simple':
+        want = h.spec(qb_ops.qbool, s == ca[1])
+    elif kind == 'range':
+        want = h.spec(qb_ops.qbool, land(ca[1] <= s, s <= cb[1]))
+    else:
+        want = h.spec(qb_ops.qbool, h.spec(qb_expr.compare, op, s, ca[1]))
+    prove_cell(h, 'clause', cells_out[0], CT.INTEGER, want)
+
+
+from spec import qb_ops
+
+CONTRACTS += [
+    Contract('select.clause', ['C01', 'C03'], ['qbee.qvm_codegen:gen_simple_case_clause', 'qbee.qvm_codegen:gen_range_case_clause',
+                                               'qbee.qvm_codegen:gen_compare_case_clause'], body_case_clause,
+             cases=[('simple', v, a, a) for v in ('INTEGER', 'LONG', 'DOUBLE', 'STRING') for a in (('STRING',) if v == 'STRING' else ('INTEGER', 'LONG', 'DOUBLE'))] +
+                   [('range', v, a, b) for v in ('INTEGER', 'LONG', 'DOUBLE') for a in ('INTEGER', 'DOUBLE') for b in ('INTEGER', 'LONG', 'DOUBLE')] +
+                   [('range', 'STRING', 'STRING', 'STRING')] +
+                   [('compare', v, a, a, op) for v in ('INTEGER', 'DOUBLE') for a in ('INTEGER', 'LONG') for op in ('CMP_LT', 'CMP_GE', 'CMP_NE')]),
+]
